@@ -1,11 +1,24 @@
-"""binary64 evaluation of cparse ASTs (C semantics for the operators the templates emit)"""
+"""binary64 evaluation of cparse ASTs (C semantics for the operators the templates emit).
+
+Integer literals are C `int`s: arithmetic between two of them stays integral and `/` truncates (`1/3 == 0`), exactly
+as the compiler would evaluate the emitted text; anything else is promoted to double."""
 import math
+
+
+def _cdiv(l, r):
+    if isinstance(l, int) and isinstance(r, int) and not isinstance(l, bool) and not isinstance(r, bool):
+        if r == 0:
+            raise ZeroDivisionError("integer division by zero")
+        q = abs(l) // abs(r)
+        return q if (l >= 0) == (r >= 0) else -q
+    return l / r
 
 
 def ev(e, env):
     k = e[0]
     if k == "num":
-        return float(e[1])
+        t = str(e[1])
+        return int(t) if t.isdigit() else float(t)
     if k == "id":
         return env[e[1]]
     if k == "idx":
@@ -21,6 +34,7 @@ def ev(e, env):
         return ev(e[2], env) if ev(e[1], env) else ev(e[3], env)
     if k == "call":
         a = [ev(x, env) for x in e[2]]
+        a = [float(x) if isinstance(x, int) else x for x in a]
         f = e[1]
         if f == "pow":
             return math.pow(a[0], a[1])
@@ -55,6 +69,6 @@ def ev(e, env):
         if op == "*":
             return l * r
         if op == "/":
-            return l / r
+            return _cdiv(l, r)
         return 1.0 if {"<": l < r, ">": l > r, "<=": l <= r, ">=": l >= r, "==": l == r, "!=": l != r}[op] else 0.0
     raise ValueError(f"cannot evaluate {e}")
